@@ -654,6 +654,9 @@ impl Harness {
 
     /// Field-by-field comparison of a poll result with the model slice.
     pub fn compare_poll(&mut self, sid: u32, tid: u32, p: u32, expectation: &PollExpectation, polled: &PolledMessages, site: &'static str) {
+        if self.model.streams[&sid].topics[&tid].partitions[&p].tainted {
+            return;
+        }
         self.stats.polls_compared += 1;
         let got: Vec<u64> = polled.messages.iter().map(|m| m.offset).collect();
         let pm_current = self.model.streams[&sid].topics[&tid].partitions[&p].current_offset();
@@ -930,7 +933,9 @@ impl Harness {
             return;
         }
         self.stats.restarts += 1;
-        let before = if self.on("C03") || self.on("C05") || self.on("C16") { Some(crate::snapshot::take(self).await) } else { None };
+        // always compared: a restart that changes what is served is reported under its own property,
+        // and for every other check it marks the affected partitions so nothing is mis-attributed
+        let before = Some(crate::snapshot::take(self).await);
         // drop client connections first: the server sees them close
         for c in 0..self.clients.len() {
             self.clients[c] = None;
